@@ -1,7 +1,10 @@
 package main
 
 import (
+	"bytes"
 	"fmt"
+	"os"
+	"path/filepath"
 	"strconv"
 	"strings"
 
@@ -179,4 +182,70 @@ func mdatRanges(in, out *mp4.File) string {
 		return "-"
 	}
 	return strings.Join(rs, ",")
+}
+
+// ---- wiring into the C10 harness ----
+
+var c10CurIn *mp4.File // decoded input of the file currently being cropped
+var c10ModelCases, c10Successes int
+
+// cropModelCase emits one model correspondence line for a successful crop (bounded number per run).
+func cropModelCase(c *Ctx, req string, out *mp4.File, ms uint64) {
+	limit := c.N(3000, 22000)
+	if c10CurIn == nil || c10CurIn.Moov == nil || out.Moov == nil || out.Mdat == nil || c10ModelCases >= limit {
+		return
+	}
+	if len(out.Moov.Traks) != len(c10CurIn.Moov.Traks) {
+		return
+	}
+	c10Successes++
+	if c10Successes%c.N(17, 30) != 0 {
+		return
+	}
+	c10ModelCases++
+	key := strings.ReplaceAll(req, " ", "/")
+	c.Case(cropRequest(key, c10CurIn, int(ms), out.Mdat.PayloadAbsoluteOffset()), cropAnswer(c10CurIn, out, mdatRanges(c10CurIn, out)))
+}
+
+// execCropModel replays "crop <ms> <input spec>" and renders the output in the model's format.
+func execCropModel(req string) string {
+	f := strings.Fields(req)
+	if len(f) < 4 || f[0] != "crop" {
+		return "bad-op"
+	}
+	ms, err := strconv.ParseUint(f[1], 10, 64)
+	if err != nil {
+		return "bad-op"
+	}
+	var ans string
+	p := safe(func() {
+		data, _, err := progInputBytes(f[2:])
+		if err != nil {
+			ans = "input-err " + err.Error()
+			return
+		}
+		dir, done := scratchDir("c10m")
+		defer done()
+		in := filepath.Join(dir, "in.mp4")
+		if err := os.WriteFile(in, data, 0o644); err != nil {
+			ans = "input-err " + err.Error()
+			return
+		}
+		r, out := runCrop(dir, in, ms, "m")
+		if r.exit != 0 {
+			ans = "fail"
+			return
+		}
+		inF, e1 := mp4.DecodeFile(bytes.NewReader(data))
+		outF, e2 := mp4.DecodeFile(bytes.NewReader(out))
+		if e1 != nil || e2 != nil {
+			ans = "decode-err"
+			return
+		}
+		ans = cropAnswer(inF, outF, mdatRanges(inF, outF))
+	})
+	if p != "" {
+		return p
+	}
+	return ans
 }
